@@ -40,6 +40,28 @@ static cholmod_sparse *read_sparse(long nrow, long ncol, long nnz, cholmod_commo
 	cholmod_l_free_triplet(&T, c);
 	return S;
 }
+/* CHOLMOD matrices need not keep the row indices of a column in ascending order (A->sorted == 0): glam.c itself builds the normal
+ * matrix with cholmod_l_add(..., sorted = 0). The solvers must not depend on the storage order: every second case (by a hash of the
+ * matrix) hands them the same matrix with the entries of every column stored in a scrambled order. */
+static int scramble_columns(cholmod_sparse *S, const char *id)
+{
+	unsigned long h = 1469598103934665603UL; const char *q;
+	(void)id; (void)q;
+	/* keyed on the matrix itself (so that a replay of the same system sees the same storage) */
+	{ long e, ne = ((long *)S->p)[S->ncol]; for (e = 0; e < ne; e++) { uint64_t u; memcpy(&u, &((double *)S->x)[e], 8); h ^= u + (unsigned long)((long *)S->i)[e]; h *= 1099511628211UL; } }
+	if ((h >> 13) % 2 == 0 || !S->packed) return 0;
+	long *p = (long *)S->p, *ri = (long *)S->i; double *xv = (double *)S->x; long j, a, b2;
+	for (j = 0; j < (long)S->ncol; j++) {
+		long lo = p[j], hi = p[j + 1] - 1;
+		if ((h >> 17) % 3 == 0) {            /* rotate by one */
+			if (hi > lo) { long ti = ri[lo]; double tx = xv[lo]; for (a = lo; a < hi; a++) { ri[a] = ri[a + 1]; xv[a] = xv[a + 1]; } ri[hi] = ti; xv[hi] = tx; }
+		} else {                             /* reverse */
+			for (a = lo, b2 = hi; a < b2; a++, b2--) { long ti = ri[a]; double tx = xv[a]; ri[a] = ri[b2]; xv[a] = xv[b2]; ri[b2] = ti; xv[b2] = tx; }
+		}
+	}
+	S->sorted = 0;
+	return 1;
+}
 static cholmod_dense *read_dense(long n, cholmod_common *c)
 {
 	cholmod_dense *d = cholmod_l_allocate_dense(n, 1, n, CHOLMOD_REAL, c);
@@ -65,7 +87,9 @@ int main(void)
 		cholmod_sparse *M = NULL; cholmod_dense *y = NULL;
 		if (m > 0) { M = read_sparse(m, n, mnnz, &c); y = read_dense(m, &c); }
 		cholmod_dense *x = NULL;
+		int unsorted = scramble_columns(A, id);
 		printf("BEGIN %s\n", id); fflush(stdout);
+		printf("STORAGE %s %s\n", id, unsorted ? "unsorted" : "sorted");
 		/* each solver changes cholmod_common (orderings): start every case from defaults */
 		cholmod_l_finish(&c); cholmod_l_start(&c);
 		if (!strcmp(solver, "block3")) x = nnls_normal_block3(A, b, 1, &c);
